@@ -392,6 +392,13 @@ class PE:
                 return None
             else:
                 path.append(p)
+        # an element-0 step directly followed by another element step is the array-to-pointer decay: same address
+        norm = []
+        for k, p in enumerate(path):
+            if p == ("i", 0) and k + 1 < len(path) and isinstance(path[k + 1], tuple) and path[k + 1][0] == "i":
+                continue
+            norm.append(p)
+        path = norm
         # trailing zero steps denote the same address as the shorter path (first element / first member)
         while path and (path[-1] == 0 or path[-1] == ("i", 0)):
             path.pop()
@@ -403,6 +410,13 @@ class PE:
             return TOP
         if loc in state.mem:
             return state.mem[loc]
+        if loc[0].startswith("@") and not loc[1]:
+            for m in self.prog.modules:
+                gg = m.globals.get(loc[0][1:])
+                if gg is not None:
+                    if gg.constant and gg.init is not None and gg.init.kind == "int":
+                        return C(gg.init.v)
+                    break
         if loc[0].startswith("@"):
             g = self.global_bytes(loc[0][1:])
             if g is not None:
